@@ -166,8 +166,10 @@ G_Cast ==
      IN /\ Fresh(a) /\ CastOK(t, VT(a)) /\ (~IsVoid(t) => M_PROPSCALAR(M_exprtype(a.m)))
         \* `(void *)E` is a null pointer constant iff E is an integer constant expression with value 0 (6.3.2.3p3):
         \* constants whose value is not tracked, and pointer-typed null pointer constants, are not cast to void*
+        \* (`(_Bool)0` is an integer constant expression too, but gcc 12 does not accept it as a null pointer
+        \* constant: it is treated as "value not tracked")
         /\ (t = Ptr(Void) => (a.z # "unknown" /\ ~(IsPtr(VT(a)) /\ a.x.npc)))
-        /\ Add(Node("((" \o CTName(i) \o ")" \o a.e \o ")", XV(TypeOfCast(t)), MV(M_strip(t)), 1 + a.d, a.devs, a.ibf, IF t = Ptr(Void) /\ IsInt(VT(a)) THEN a.z ELSE IF IsInt(t) /\ a.z = "zero" THEN "zero" ELSE IF a.z = "na" THEN "na" ELSE "unknown"))
+        /\ Add(Node("((" \o CTName(i) \o ")" \o a.e \o ")", XV(TypeOfCast(t)), MV(M_strip(t)), 1 + a.d, a.devs, a.ibf, IF t = Ptr(Void) /\ IsInt(VT(a)) THEN a.z ELSE IF IsInt(t) /\ t.k # "bool" /\ a.z = "zero" THEN "zero" ELSE IF a.z = "na" THEN "na" ELSE "unknown"))
 
 (* ---- comma ---------------------------------------------------------------------- *)
 G_Comma ==
@@ -312,7 +314,8 @@ Probes(n) ==
                      qenum |-> QualEnumMeetsInt(Unq(vt), ty)]
   IN SetToSeq(
        (IF tyof /\ BSafe(tt) /\ BSafe(mt) /\ ~IsVoid(tt) THEN {cprobe(ty) : ty \in {u \in {tt} \cup near : BSafe(u)}} ELSE {})
-       \cup (IF GenericOK(vt) THEN {gprobe(ty) : ty \in {u \in {Unq(vt)} \cup Mut(Unq(vt)) : GenericOK(u)}} ELSE {})
+       \* the qualified version of the right type is a different (incompatible) association type: 6.5.1.1p2, 6.7.3p10
+       \cup (IF GenericOK(vt) THEN {gprobe(ty) : ty \in {u \in {Unq(vt), Qual(Unq(vt), {"const"})} \cup Mut(Unq(vt)) : GenericOK(u)}} ELSE {})
        \cup (IF tyof /\ ~IsVoid(tt) THEN {[k |-> "ptrinit", ty |-> tt, want |-> TRUE, alt |-> TRUE, altrej |-> ~M_ptrassign(Ptr(mt), Ptr(tt))]} ELSE {})
        \cup (IF tyof /\ IsCompleteObj(tt) THEN {[k |-> "sizeof", ty |-> tt, want |-> TRUE,     \* sizeof(E) == sizeof(ty)
                       alt |-> IsCompleteObj(mt) /\ SizeOfEq(mt, tt), altrej |-> n.m.bfn \/ ~IsCompleteObj(mt)]} ELSE {})
